@@ -128,7 +128,9 @@ fn main() {
                     _ => rng.gen_range(0..(40 * tick as u64 + 1)),
                 };
                 let neg = rng.gen_bool(0.3); // the helpers take the absolute value of the sample
-                let dist = (a4 as f64) / 4.0 * if neg { -1.0 } else { 1.0 };
+                // a heavy-tailed distribution with finite parameters can return infinity (exp of a large normal sample overflows)
+                let inf = rng.gen_bool(0.04);
+                let dist = if inf { f64::INFINITY } else { (a4 as f64) / 4.0 } * if neg { -1.0 } else { 1.0 };
                 let mid = (m2 as f64) / 2.0;
                 let vol: u32 = rng.gen_range(1..1000);
                 let tr: u32 = rng.gen_range(0..50);
@@ -164,11 +166,12 @@ fn main() {
                            "tr": o.trader_id, "price": pair(o.price as u64), "topgap": (MAX - o.price as u64).min(1 << 20), "fresh": (ret as usize) >= before[asset].len()})
                 } else { json!({"id": -1}) };
                 if ret >= 0 { known.push(ret as usize); }
-                let ev = json!({"op": "quote", "run": run, "buy": buy, "m2": pair(m2), "a4": pair(a4), "neg": neg, "vol": vol, "tr": tr, "ret": ret, "err": err,
+                let ev = json!({"op": "quote", "run": run, "buy": buy, "m2": pair(m2), "a4": pair(a4), "inf": inf, "neg": neg, "vol": vol, "tr": tr, "ret": ret, "err": err,
                                 "created": created, "untouched": untouched, "order": order, "instrs": instrs_json(&world, pend_before)});
                 writeln!(f, "{}", ev).unwrap();
                 n_events += 1;
                 *feats.entry("quote_calls".into()).or_insert(0) += 1;
+                if inf { *feats.entry("infinite_sampled_distances".into()).or_insert(0) += 1; }
                 if a4 == 0 { *feats.entry("quotes_at_distance_zero".into()).or_insert(0) += 1; }
                 if buy && a4 > 2 * m2 { *feats.entry("buy_distance_beyond_mid_price".into()).or_insert(0) += 1; }
                 if !buy && 2 * m2 + a4 > 4 * MAX { *feats.entry("sell_beyond_the_price_range".into()).or_insert(0) += 1; }
